@@ -293,8 +293,16 @@ func (e *env[T]) eqvFns(elems []T, spare int, es eqvSpec) {
 			}
 			if bad != "" {
 				x.fail("xslices.Runs-result", fmt.Sprintf("Runs(%s) = %v: %s", in, got, bad), map[string]any{"fn": "xslices.Runs", "input": in, "got": fmt.Sprint(got)})
-			} else if len(starts) > 0 && (len(starts) == 1 || starts[1] == 1) {
-				x.observe("runs", "leading run of length one")
+			} else {
+				if len(starts) > 0 && (len(starts) == 1 || starts[1] == 1) {
+					x.observe("runs", "leading run of length one")
+				}
+				// runs are documented views of s: they may share s's array, but not each other's cells
+				names := make([]string, len(got))
+				for i := range names {
+					names[i] = fmt.Sprint("run ", i)
+				}
+				partsIndependent(x, "xslices.Runs", in, names, got, false, nil)
 			}
 		}
 	}
@@ -324,7 +332,17 @@ func (e *env[T]) eqvFns(elems []T, spare int, es eqvSpec) {
 			}
 			if bad || !g.same(elems) || !g.spareOK() {
 				x.wrong("xslices.Group", in, got, want)
-			} else if len(elems) > 1 {
+			} else {
+				var names []string
+				var parts [][]T
+				for k := 0; k < 16; k++ {
+					if grp, ok := got[k]; ok {
+						names, parts = append(names, fmt.Sprintf("of group %d", k)), append(parts, grp)
+					}
+				}
+				partsIndependent(x, "xslices.Group", in, names, parts, true, func() bool { return g.same(elems) && g.spareOK() })
+			}
+			if !x.failed && !bad && len(elems) > 1 {
 				if ordered {
 					x.observe("group order (recorded, not judged)", "input order kept within groups")
 				} else {
@@ -519,6 +537,13 @@ func (e *env[T]) chunk(elems []T, spare int, c int) {
 	}
 	if bad == "" && (!g.same(elems) || !g.spareOK()) {
 		bad = "the input was modified"
+	}
+	if bad == "" && len(got) > 1 {
+		names := make([]string, len(got))
+		for i := range names {
+			names[i] = fmt.Sprint("chunk ", i)
+		}
+		partsIndependent(x, "xslices.Chunk", in, names, got, false, nil)
 	}
 	if bad != "" {
 		sig := "xslices.Chunk-result"
